@@ -5,6 +5,7 @@ import base64
 import copy
 import json
 import zlib
+import common
 
 import wire
 from common import err_name
@@ -265,7 +266,8 @@ def inner(ctx, R_):
     rng = ctx.rng
     k16 = K.key("oct16")
     good = zlib.compress(b"hello world " * 40)[2:-4]
-    streams = [b"", b"\x00", b"notdeflate", good[:-3], good[:5], b"\xff\xff\xff", b"\x78\x9c" + b"junk", b"\x78\x9c", good + b"trailing",
+    crafted = bytes.fromhex((common.ROOT / "corpus" / "deflate_error_in_pending_probe.hex").read_text().strip())
+    streams = [crafted, b"", b"\x00", b"notdeflate", good[:-3], good[:5], b"\xff\xff\xff", b"\x78\x9c" + b"junk", b"\x78\x9c", good + b"trailing",
                zlib.compress(b"a" * 256001)[2:-4], zlib.compress(b"a" * 300000), zlib.compress(b"\x00" * (1 << 24), 9)[2:-4], bytes(rng.randrange(256) for _ in range(64))]
     for s in streams:
         for enc in ("A128GCM", "A128CBC-HS256"):
@@ -278,6 +280,60 @@ def inner(ctx, R_):
             dc = E.DCase(tok, key, None, None, "inner-zip")
             R_.call("jwe.decrypt_compact", f"zip inner {s[:12]!r} {enc}", lambda dc=dc: dc.run_impl(), dc if len(s) < 5000 else None)
             R_.call("jwt.decode(jwe)", f"zip inner {s[:12]!r} {enc}", lambda: jwt.decode(tok, key, registry=jwe.JWERegistry(algorithms=E.ALL_NAMES)))
+    # primitive fault injection: zlib raising its documented error at the k-th decompress() call of one object
+    import joserfc.rfc7518.jwe_zips as ZM
+
+    class ZShim:
+        error = zlib.error
+        MAX_WBITS = zlib.MAX_WBITS
+
+        def __init__(self, k):
+            self.k = k
+
+        def compress(self, *a, **kw):
+            return zlib.compress(*a, **kw)
+
+        def decompressobj(self, *a, **kw):
+            real, shim, calls = zlib.decompressobj(*a, **kw), self, [0]
+
+            class Obj:
+                @property
+                def unconsumed_tail(self):
+                    return real.unconsumed_tail
+
+                @property
+                def eof(self):
+                    return real.eof
+
+                def decompress(self, *aa, **kk):
+                    calls[0] += 1
+                    if calls[0] == shim.k:
+                        raise zlib.error("injected")
+                    return real.decompress(*aa, **kk)
+
+                def flush(self, *aa):
+                    calls[0] += 1
+                    if calls[0] == shim.k:
+                        raise zlib.error("injected")
+                    return real.flush(*aa)
+            return Obj()
+    for k in (1, 2, 3):
+        for s in (good, zlib.compress(b"a" * 256000)[2:-4], b"\x78\x9c" + good):
+            pseg = jb({"alg": "dir", "enc": "A128GCM", "zip": "DEF"})
+            ct, tag = R.content_encrypt("A128GCM", k16.raw_value, b"i" * 12, pseg, s)
+            tok = b".".join([pseg, b"", b64(b"i" * 12), b64(ct), b64(tag)])
+
+            def run_with_shim(f):
+                saved = ZM.zlib
+                ZM.zlib = ZShim(k)
+                try:
+                    return f()
+                finally:
+                    ZM.zlib = saved
+            R_.call("jwe.decrypt_compact", f"zlib.error injected at decompress call {k}, stream {len(s)}",
+                    lambda: run_with_shim(lambda: jwe.decrypt_compact(tok, k16, registry=jwe.JWERegistry(algorithms=E.ALL_NAMES))))
+            R_.call("jwt.decode(jwe)", f"zlib.error injected at decompress call {k}, stream {len(s)}",
+                    lambda: run_with_shim(lambda: jwt.decode(tok, k16, registry=jwe.JWERegistry(algorithms=E.ALL_NAMES))))
     payloads = [b"\xff\xfe", b"[1]", b"x", b"{", b"1", b"", b"null", b"[" * 100000, b"{\"a\":" * 50000 + b"1" + b"}" * 50000, b"\"\\ud800\"", b"{\"exp\": 1e999}", b"{\"a\": NaN}"]
     ko = K.key("oct32")
     for p in payloads:
